@@ -176,7 +176,8 @@ QUICK = {
                    'svb_dtor', 'svb_ctor__pcA', 'svb_ctor__ul_pcE_pcA', 'svb_move_left__pE_pE_pE', 'svb_assign_with_copies'],
             'ce_triv': ['svb_append_element__pcE', 'svb_emplace_into_current__pE_pcE', 'svb_erase_range', 'svb_append_range__strong_pcE_pcE', 'svb_assign_with_range__pcE_pcE',
                         'svb_move_left__pE_pE_pE', 'svb_ctor__pcE_pcE_pcA', 'svb_resize_with__ul']},
-    'C15': {'main': ['ai_external_range_length__FI_FI', 'ai_default_uninitialized_copy__FI_FI_pE', 'svb_append_range__strong_FI_FI', 'ai_external_range_length__pcE_pcE']},
+    'C15': {'main': ['ai_external_range_length__FI_FI', 'ai_default_uninitialized_copy__FI_FI_pE', 'svb_append_range__strong_FI_FI', 'ai_external_range_length__pcE_pcE',
+                     'svb_ctor__ul_pG_pcA', 'svb_ctor__II_II_pcA', 'svb_append_range__II_II', 'svb_append_range__strong_II_II', 'svb_assign_with_range__II_II', 'svb_insert_range__pE_II_II']},
     'C18': {'pair_gt': ['svb_ctor__psvbM'], 'pair_lt': ['svb_ctor__psvbM'],
             'pocs': ['sv_op_assign__psv', 'sv_swap'], 'pocma': ['sv_op_assign__psv', 'sv_assign__psv', 'sv_swap'], 'aeq': ['sv_op_assign__psv', 'sv_swap'],
             'tmove': ['sv_ctor__psv', 'sv_op_assign__psv'], 'n0': ['sv_ctor__psv'],
